@@ -36,6 +36,10 @@ pub fn main(args: &Args) -> i32 {
         None => (0, 1),
     };
     crate::env::init_process();
+    // self-test aid: fault switches of the code under test (only mutated scratch copies read any)
+    if let Ok(list) = std::env::var("VERIF_SWITCHES") {
+        for name in list.split(',').filter(|x| !x.is_empty()) { routinator::verif::set_switch(name, true); }
+    }
     if args.wants("C19") {
         rep.touch("C19");
         c19(&mut rep, args, &behaviours, shard, nshards);
@@ -177,7 +181,8 @@ enum Verdict {
     Held,
     /// connection index (0-based) that was neither served nor closed after an earlier setup failure
     Stuck(usize),
-    /// connection index of a healthy connection that was closed instead of served after an earlier setup failure
+    /// connection index of a connection that was refused, or of a healthy one that was closed instead of
+    /// served, after an earlier setup failure (the listener is gone)
     Refused(usize),
     /// something the property does not talk about went wrong (harness / model fidelity)
     Odd(String),
@@ -192,7 +197,7 @@ fn judge(plan: &Plan, mode: Mode, seen: &[Seen]) -> Verdict {
             match s {
                 Seen::Served => {}
                 Seen::Pending if failed_before => return Verdict::Stuck(c),
-                Seen::Closed if failed_before => return Verdict::Refused(c),
+                Seen::Closed | Seen::ConnectFailed(_) if failed_before => return Verdict::Refused(c),
                 other => return Verdict::Odd(format!("healthy connection {} with no failed setup before it: {}", c + 1, other.text())),
             }
         }
@@ -200,6 +205,7 @@ fn judge(plan: &Plan, mode: Mode, seen: &[Seen]) -> Verdict {
             match s {
                 Seen::Closed => {}
                 Seen::Pending if failed_before => return Verdict::Stuck(c),
+                Seen::ConnectFailed(_) if failed_before => return Verdict::Refused(c),
                 other => return Verdict::Odd(format!("connection {} whose setup must fail: {}", c + 1, other.text())),
             }
             failed_before = true;
@@ -256,7 +262,7 @@ fn c19(rep: &mut Report, args: &Args, behaviours: &[Value], shard: usize, nshard
         let tries = if already >= 2 { 1 } else { 3 };
         let waits = [base, base * 8 / 5, base * 12 / 5];
         for t in 0..tries {
-            let wait = if already >= 2 { base.min(Duration::from_millis(1000)) } else { waits[t] };
+            let wait = if already >= 2 { base.min(Duration::from_millis(700)) } else { waits[t] };
             let seen = match attempt(plan, mode, wait) {
                 Ok(s) => s,
                 Err(e) => { verdicts.push((Verdict::Odd(e), Vec::new())); break }
@@ -281,8 +287,10 @@ fn c19(rep: &mut Report, args: &Args, behaviours: &[Value], shard: usize, nshard
                 let all_stuck = verdicts.iter().all(|(v, _)| matches!(v, Verdict::Stuck(_) | Verdict::Refused(_)));
                 if all_stuck && refused {
                     rep.trace("C19");
-                    rep.violation("C19", &mode.sig().replace("listener-stuck", "later-connection-closed"),
-                        format!("a healthy connection ({}) opened after a failed setup was closed instead of served ({})", c + 1, mode.name()),
+                    if antecedent { rep.nontrivial("C19", beh.to_string()); }
+                    rep.violation("C19", &mode.sig().replace("listener-stuck", "listener-gone"),
+                        format!("connection {} opened after a failed setup ({}) was refused or closed instead of served: the listener \
+                                 stopped listening", c + 1, mode.name()),
                         beh, observed);
                 }
                 else if all_stuck {
@@ -293,7 +301,7 @@ fn c19(rep: &mut Report, args: &Args, behaviours: &[Value], shard: usize, nshard
                     rep.violation("C19", mode.sig(),
                         format!("connection {} failed its setup ({}); connection {} opened afterwards was neither served nor closed within {} ms \
                                  (confirmed on {} attempt(s) with growing waits): the listener no longer accepts",
-                                first_fail + 1, mode.name(), c + 1, (if already >= 2 { base.min(Duration::from_millis(1000)) } else { waits[verdicts.len() - 1] }).as_millis(), verdicts.len()),
+                                first_fail + 1, mode.name(), c + 1, (if already >= 2 { base.min(Duration::from_millis(700)) } else { waits[verdicts.len() - 1] }).as_millis(), verdicts.len()),
                         beh, observed);
                 }
                 else {
